@@ -33,6 +33,11 @@ def scripts(rng, tmpdir):
     # init / resize of an object that is in per-frequency z0 mode (leaving that mode allocates)
     S.append(('vnadata-reinit', ['vd 0 alloc', 'vd 0 init 1 2 2 3', 'vd 0 set_fz0 1 0 %s' % z(75 + 1j), 'vd 0 init 5 1 1 4', 'vd 0 digest', 'vd 0 set_fz0_vector 2',
                                  'vd 0 resize 1 3 3 2', 'vd 0 init 1 2 2 1', 'vd 0 digest', 'vd 0 free']))
+    # saving and loading (the default format is installed and removed again inside the call)
+    ts_ = '# HZ S RI R 50\n1e9 .1 .2 .3 .4 .5 .6 .7 .8\n2e9 .1 .2 .3 .4 .5 .6 .7 .8\n'.encode().hex()
+    S.append(('vnadata-files', ['vd 0 alloc', 'vd 0 init 1 2 2 1', 'vd 0 set_frequency_vector %s' % vlib.d2h(1e9), 'vd 0 set_matrix 0 ' + ' '.join(z(complex(0.1 * k, 0.2)) for k in range(1, 5)),
+                                'vd 0 savestr ' + h('x.npd'), 'vd 0 cksave ' + h('x.ts'), 'vd 0 savestr ' + h('x.s2p'), 'vd 0 set_format ' + h('ma'), 'vd 0 savestr ' + h('y.npd'),
+                                'vd 1 alloc', 'vd 1 loadstr %s x%s' % (h('l.s2p'), ts_), 'vd 1 digest', 'vd 1 savestr ' + h('z.ts'), 'vd 0 digest', 'vd 0 free', 'vd 1 free']))
     # property tree
     S.append(('property', ['pt 0 set ' + h('a.b=1'), 'pt 0 set ' + h('a.list[3]=x'), 'pt 0 set ' + h('a.list[1+]=y'), 'pt 0 set ' + h('m.k1.k2.k3=deep'),
                            'pt 0 keys ' + h('a'), 'pt 0 get ' + h('a.b'), 'pt 0 type ' + h('a.list'), 'pt 0 count ' + h('a.list'), 'pt 0 get_subtree ' + h('m.k1'), 'pt 0 quote_key ' + h('k.e y'), 'pt 1 copy 0', 'pt 1 digest', 'pt 0 delete ' + h('a.list[0]'),
